@@ -756,6 +756,43 @@ pub fn run(out: &mut Out, tier: &str, seed: u64, prop: &str) {
         }
         "C05" => {
             use std::str::FromStr;
+            // shapes the renderer special-cases (`!=`, `!= X.Y.*`, `== X.Y.*`, gaps, point lists), built on
+            // purpose around literals with 1-4 release segments and trailing zeros
+            let mut items = items;
+            {
+                let v = |k: usize, op: usize, t: &str| Term::V(k, op, t.to_string());
+                let lits = ["3.8", "3.8.1", "3.8.0", "3", "3.0", "3.8.1.2", "3.10", "2.7.18", "3.9"];
+                let bump = |t: &str| { let r: Vec<u64> = Version::from_str(t).unwrap().release().to_vec(); format!("{}.{}", r[0], r.get(1).copied().unwrap_or(0) + 1) };
+                let mut shapes: Vec<Term> = Vec::new();
+                for k in [0usize, 1] {
+                    for a in lits {
+                        let b = bump(a);
+                        shapes.push(Term::or(v(k, 2, a), v(k, 5, &b)));                       // < a or >= next minor
+                        shapes.push(Term::and(v(k, 5, a), v(k, 2, &b)));                      // >= a and < next minor
+                        shapes.push(Term::or(v(k, 2, a), v(k, 4, a)));                        // < a or > a
+                        shapes.push(Term::or(v(k, 3, a), v(k, 5, &b)));                       // <= a or >= next minor
+                        shapes.push(Term::or(v(k, 2, a), v(k, 4, &b)));                       // < a or > next minor
+                        for c in ["3.9", "3.11", "4"] {
+                            shapes.push(Term::and(v(k, 1, a), v(k, 1, c)));                   // != a and != c
+                            shapes.push(Term::or(Term::or(v(k, 2, a), Term::and(v(k, 5, &b), v(k, 2, c))), v(k, 5, &bump(c))));
+                            shapes.push(Term::and(Term::or(v(k, 2, a), v(k, 5, &b)), Term::S(1, 0, "posix".into())));
+                        }
+                    }
+                }
+                for key in [1usize, 12] {
+                    for a in ["a", "linux", ""] {
+                        shapes.push(Term::or(Term::S(key, 4, a.into()), Term::S(key, 2, a.into())));      // < a or > a
+                        shapes.push(Term::and(Term::S(key, 1, a.into()), Term::S(key, 1, "b".into())));
+                        shapes.push(Term::and(Term::S(key, 3, a.into()), Term::S(key, 5, "zz".into())));
+                    }
+                }
+                for t in shapes {
+                    let Some(tree) = try_build(out, "C05", &t) else { return };
+                    let d = dump(&tree);
+                    out.stat("c05.targeted_shapes");
+                    items.push(Item { term: t, tree, dump: d });
+                }
+            }
             for it in &items {
                 out.evaluations += 1;
                 let m = &it.tree;
